@@ -4,6 +4,7 @@ use std::collections::BTreeMap;
 use std::sync::Arc;
 use std::time::Duration;
 
+use bytes::Bytes;
 use quinn_proto::{congestion, IdleTimeout, MtuDiscoveryConfig, TransportConfig, VarInt};
 
 use crate::sim::*;
@@ -62,6 +63,7 @@ pub fn lookup(name: &str) -> Option<(&'static str, ScenFn)> {
         "close" => (CLOSE_RULE, close as ScenFn),
         "determ" => (DETERM_RULE, determ as ScenFn),
         "migrate" => (MIGRATE_RULE, migrate as ScenFn),
+        "zrtt" => (ZRTT_RULE, zrtt as ScenFn),
         _ => return None,
     })
 }
@@ -935,4 +937,138 @@ pub fn migrate(seed: u64, out: &mut Outcome) {
         out.fails.push(format!("{f} seed={seed}"));
     }
     out.take_trace(seed, &mut sim);
+}
+
+pub const ZRTT_RULE: &str = "one execution = a first connection to obtain a session ticket, then a second connection on the same endpoints using 0-RTT: the client opens streams and writes early data before the handshake completes; the server accepts early data (same TLS state) or rejects it (server TLS state replaced, optionally with smaller limits), with or without Retry; every subset pattern of the first 8 datagrams of the second connection may be dropped (seeded), plus random loss/duplication/reordering afterwards. Oracles: C17/C01 the server application sees every stream's bytes exactly once and in order whatever was sent early, nothing from a rejected attempt is visible in addition to the re-sent data, after rejection stream numbering restarts (the re-opened streams get the same ids) and the workload completes under the newly negotiated limits; C02 the handshake and the workload complete under fair loss; C05 the server never reports FLOW_CONTROL/STREAM_LIMIT errors against an honest client; non-trivial = the second connection really had 0-RTT keys and wrote early data";
+
+pub fn zrtt(seed: u64, out: &mut Outcome) {
+    let mut rng = Rng::new(seed ^ 0x02e7);
+    let (tc, _) = random_transport(&mut rng);
+    let (mut ts, _) = random_transport(&mut rng);
+    ts.max_concurrent_bidi_streams(VarInt::from_u32(*rng.pick(&[2u32, 100])));
+    ts.max_concurrent_uni_streams(VarInt::from_u32(*rng.pick(&[2u32, 100])));
+    let big_windows = rng.chance(1, 2);
+    if big_windows {
+        ts.receive_window(VarInt::from_u32(1_000_000));
+        ts.stream_receive_window(VarInt::from_u32(500_000));
+    }
+    let (mut sim, ccfg) = default_pair(seed, tc, ts);
+    sim.net.latency_ns = *rng.pick(&[1_000_000u64, 10_000_000]);
+    // ---- first connection: get a ticket
+    let c1 = sim.connect(ccfg.clone());
+    let mut w1 = Workload::new(seed);
+    w1.ch[CLIENT] = Some(c1);
+    let _ = sim.run_until(5_000_000_000, 20_000, |sim| {
+        w1.tick(sim);
+        sim.now > 300_000_000 && sim.nodes[CLIENT].conns[&c1].obs.confirmed
+    });
+    let now = sim.t();
+    sim.conn(CLIENT, c1).close(now, VarInt::from_u32(0), Bytes::new());
+    sim.time_cap = Some(sim.now + 5_000_000_000);
+    let _ = sim.run_until(sim.now + 5_000_000_000, 20_000, |_| false);
+    sim.time_cap = None;
+    for n in 0..2 {
+        for c in sim.nodes[n].conns.values_mut() {
+            c.removed = true;
+        }
+    }
+    sim.nodes[SERVER].accepted.clear();
+    sim.fails.clear();
+    sim.trace.clear();
+    // ---- server for the second connection: same TLS state (accept) or replaced (reject)
+    let reject = rng.chance(1, 3);
+    if reject {
+        let (mut ts2, _) = random_transport(&mut rng);
+        // possibly smaller limits than the client remembers
+        if rng.chance(1, 2) {
+            ts2.receive_window(VarInt::from_u32(*rng.pick(&[2000u32, 10_000])));
+            ts2.stream_receive_window(VarInt::from_u32(*rng.pick(&[1000u32, 5_000])));
+        }
+        ts2.max_concurrent_bidi_streams(VarInt::from_u32(*rng.pick(&[1u32, 2, 100])));
+        ts2.max_concurrent_uni_streams(VarInt::from_u32(*rng.pick(&[1u32, 2, 100])));
+        let clock = sim.clock.clone();
+        let scfg = server_config(seed ^ 0x99, ts2, &clock);
+        sim.nodes[SERVER].ep.set_server_config(Some(Arc::new(scfg)));
+    }
+    if rng.chance(1, 4) {
+        sim.nodes[SERVER].policy = IncomingPolicy::Retry;
+    }
+    sim.net = random_net(&mut rng);
+    sim.net.path_mtu = sim.net.path_mtu.max(1400);
+    sim.net.corrupt_permille = 0;
+    sim.net.truncate_permille = 0;
+    // targeted loss among the first 8 datagrams of the second connection
+    let drop_mask = rng.below(256);
+    let counter = std::rc::Rc::new(std::cell::Cell::new(0u64));
+    let c2 = counter.clone();
+    sim.wire_filter = Some(Box::new(move |_d: &mut Dgram, _r: &mut Rng| {
+        let i = c2.get();
+        c2.set(i + 1);
+        !(i < 8 && (drop_mask >> i) & 1 == 1)
+    }));
+    let mut w = Workload::new(seed ^ 5);
+    let (npc, nps) = (1 + rng.below(4) as usize, rng.below(2) as usize);
+    w.sides[CLIENT].plans = Workload::random_plans(&mut rng, npc, 60_000);
+    w.sides[SERVER].plans = Workload::random_plans(&mut rng, nps, 20_000);
+    for s in 0..2 {
+        w.sides[s].unordered_permille = *rng.pick(&[0u64, 500]);
+    }
+    let cch = sim.connect(ccfg);
+    w.ch[CLIENT] = Some(cch);
+    let had_0rtt = sim.conn(CLIENT, cch).has_0rtt();
+    if had_0rtt {
+        w.start_early(&mut sim, CLIENT, cch);
+    }
+    let early_written: u64 = w.sides[CLIENT].send.values().map(|s| s.written).sum();
+    let end = sim.run_until(600_000_000_000, 300_000, |sim| {
+        if w.ch[SERVER].is_none() {
+            if let Some(&ch) = sim.nodes[SERVER].accepted.first() {
+                w.ch[SERVER] = Some(ch);
+            }
+        }
+        w.tick(sim);
+        w.complete() && w.ch[SERVER].is_some()
+    });
+    let accepted = sim.conn(CLIENT, cch).accepted_0rtt();
+    let connected = sim.nodes[CLIENT].conns[&cch].obs.connected;
+    let lost_c = sim.nodes[CLIENT].conns[&cch].obs.lost.clone();
+    let lost_s: Vec<String> = w.ch[SERVER].map(|s| sim.nodes[SERVER].conns[&s].obs.lost.clone()).unwrap_or_default();
+    if !lost_c.is_empty() || !lost_s.is_empty() {
+        // an honest pair must never end in a transport error
+        let k = if format!("{lost_c:?}{lost_s:?}").contains("FLOW_CONTROL") { "flow-control-error-between-honest-peers" } else if format!("{lost_c:?}{lost_s:?}").contains("STREAM_LIMIT") { "flow-stream-limit-error-between-honest-peers" } else { "connection-lost-under-fair-loss" };
+        sim.fail(k, format!("client {lost_c:?} server {lost_s:?} (0-RTT available {had_0rtt}, accepted {accepted}, reject configured {reject}, early bytes {early_written})"));
+        w.final_check(&mut sim, false);
+    } else {
+        if !connected || w.ch[SERVER].is_none() {
+            sim.fail("handshake-never-completed", format!("run ended {end:?} (0-RTT {had_0rtt}, reject {reject}, drop mask {drop_mask:#b})"));
+        }
+        w.final_check(&mut sim, connected);
+        if reject && accepted {
+            sim.fail("zero-rtt-accepted-by-a-server-that-lost-its-state", "client reports accepted_0rtt although the server TLS state was replaced".to_string());
+        }
+    }
+    out.runs += 1;
+    out.evaluations += sim.steps;
+    if had_0rtt && early_written > 0 {
+        out.nontrivial += 1;
+    }
+    out.count(&format!("end:{end:?}"), 1);
+    out.count(if had_0rtt { "had-0rtt-keys" } else { "no-0rtt-keys" }, 1);
+    out.count(if accepted { "0rtt-accepted" } else { "0rtt-not-accepted" }, 1);
+    out.count("early-bytes-written", early_written);
+    out.count("client-restarts-after-rejection", w.sides[CLIENT].restarts as u64);
+    if out.samples.len() < 3 {
+        out.samples.push(format!("seed {seed}: 0-RTT keys {had_0rtt}, early bytes {early_written}, reject configured {reject}, accepted {accepted}, drop mask {drop_mask:#010b}, plans {:?}, end {end:?} at {} ms", w.sides[CLIENT].plans.iter().map(|p| (p.len, p.chunk)).collect::<Vec<_>>(), sim.now / 1_000_000));
+    }
+    if std::env::var("VERIF_SIM_VERBOSE").is_ok() {
+        for r in sim.trace.iter().filter(|r| !matches!(r, Rec::Tx { .. })) {
+            eprintln!("{r:?}");
+        }
+        for node in 0..2 {
+            eprintln!("app node {node}: plans {:?} next {} send {:?} recv {:?}", w.sides[node].plans, w.sides[node].next_plan, w.sides[node].send, w.sides[node].recv.iter().map(|(k, v)| (*k, v.bytes, v.fin, v.unordered)).collect::<Vec<_>>());
+        }
+    }
+    for f in sim.fails.drain(..) {
+        out.fails.push(format!("{f} seed={seed}"));
+    }
 }
